@@ -686,12 +686,12 @@ Fixpoint lookup (w : word) (v : list word) (i : N) : N :=
 (* vocabulary = the words of the corpus document; everything else is id 0 *)
 Definition D0 (w : word) : N := lookup w (map fst (d_toks (tokenize_runes T1 true docu0))) 1.
 
-Definition K0 : list N := ids_of D0 (d_toks (tokenize_runes T1 true docu0)).
+Notation K0 := (ids_of D0 (d_toks (tokenize_runes T1 true docu0))) (only parsing).
 Example K0_value : K0 = [1; 2; 3; 4; 5; 6; 7; 8; 9; 2; 11; 12; 2]%N.
 Proof. vm_compute. reflexivity. Qed.
 
-Definition whole0 : doc := tokenize_runes T1 true (pre0 ++ docu0 ++ post0).
-Definition ids0 : list N := ids_of D0 (d_toks whole0).
+Notation whole0 := (tokenize_runes T1 true (pre0 ++ docu0 ++ post0)) (only parsing).
+Notation ids0 := (ids_of D0 (d_toks whole0)) (only parsing).
 Example ids0_value :
   ids0 = ([0; 0; 0; 0; 0; 0] ++ [1; 2; 3; 4; 5; 6; 7; 8; 9; 2; 11; 12; 2] ++ [0; 0; 0; 0])%N%list.
 Proof. vm_compute. reflexivity. Qed.
@@ -713,26 +713,53 @@ Example match_text :
 Proof. vm_compute. reflexivity. Qed.
 
 (* every hypothesis of C01_text_candidate_present holds for this instance *)
+Example lengths0 :
+  length (d_toks (tokenize_runes T1 true pre0)) = 6%nat /\
+  length (d_toks (tokenize_runes T1 true docu0)) = 13%nat.
+Proof. split; vm_compute; reflexivity. Qed.
+
+Notation tk0 := (d_toks (tokenize_runes T1 true docu0)) (only parsing).
+Notation a0 := (length (d_toks (tokenize_runes T1 true pre0))) (only parsing).
+Notation n0 := (length tk0) (only parsing).
+
 Example candidate_present_instance :
   exists (cs : list mtch) (t0 t1 : word * N) (nm vr ty : str),
-    nth_error (d_toks (tokenize_runes T1 true docu0)) 0 = Some t0 /\
-    nth_error (d_toks (tokenize_runes T1 true docu0)) (13 - 1) = Some t1 /\
+    nth_error tk0 0 = Some t0 /\
+    nth_error tk0 (n0 - 1) = Some t1 /\
     key_part (cd_key doc0) 1 = Some nm /\ key_part (cd_key doc0) 2 = Some vr /\
     key_part (cd_key doc0) 0 = Some ty /\
     In {| m_name := nm; m_type := ty; m_variant := vr; m_conf := fone;
           m_sl := Z.of_N (snd t0 + nl pre0); m_el := Z.of_N (snd t1 + nl pre0);
-          m_st := Z.of_nat 6; m_et := Z.of_nat 6 + Z.of_nat 13 - 1 |} cs /\
+          m_st := Z.of_nat a0; m_et := Z.of_nat a0 + Z.of_nat n0 - 1 |} cs /\
     r_matches res0 =
       filter_candidates (sort (less (cf_total_less cfg0))
                               (map pseudo_match (map Z.of_N (d_matches whole0)) ++ cs)).
 Proof.
-  apply (C01_text_candidate_present T1 D0 exH 2 pre0 docu0 post0 pre0_settled docu0_settled
-           ltac:(lia) ltac:(vm_compute; lia) ltac:(vm_compute; reflexivity)
-           cfg0 doc0 [doc0] (mk_sset exH 2 ids0)
-           (or_introl eq_refl) eq_refl (mk_sset_built _ _ _) (mk_sset_built _ _ _)
-           ltac:(vm_compute; reflexivity) ltac:(vm_compute; discriminate)
-           ltac:(vm_compute; reflexivity) ltac:(vm_compute; discriminate)).
-  exact match_text.
+  pose proof (C01_text_candidate_present T1 D0 exH 2 pre0 docu0 post0 pre0_settled docu0_settled) as P.
+  cbv zeta in P.
+  destruct lengths0 as [La Ln].
+  assert (H1 : (1 <= 2)%nat) by lia.
+  specialize (P H1).
+  assert (H2 : (2 <= n0)%nat) by (rewrite Ln; lia).
+  specialize (P H2).
+  assert (H3 : (Z.of_nat n0 < 2 ^ 53)%Z) by (rewrite Ln; vm_compute; reflexivity).
+  specialize (P H3 cfg0 doc0 [doc0] (mk_sset exH 2 ids0) (or_introl eq_refl)).
+  assert (Hk : cd_ids doc0 = K0) by (unfold doc0; cbn [cd_ids]; reflexivity).
+  specialize (P Hk).
+  assert (Hs : built_from exH 2 K0 (cd_set doc0))
+    by (unfold doc0; cbn [cd_set]; apply mk_sset_built).
+  specialize (P Hs).
+  specialize (P (mk_sset_built exH 2 ids0)).
+  assert (H4 : fle (cf_thr cfg0) fone = true) by (vm_compute; reflexivity).
+  specialize (P H4).
+  assert (H5 : (trunc (fmul (of_Z (Z.of_nat n0)) (cf_thr cfg0)) <= Z.of_nat n0)%Z) by (rewrite Ln; vm_compute; discriminate).
+  specialize (P H5).
+  assert (H6 : cf_diff cfg0 (cd_key doc0) (N.of_nat a0) (N.of_nat (a0 + n0)) = Some [(DEqual, cd_ids doc0)]) by (rewrite La, Ln; vm_compute; reflexivity).
+  specialize (P H6).
+  assert (H7 : key_part (cd_key doc0) 1 <> None) by (vm_compute; discriminate).
+  specialize (P H7 res0).
+  specialize (P match_text).
+  exact P.
 Qed.
 
 End PlantedTextExamples.
